@@ -31,21 +31,25 @@ static p13::IdentityPtr ident(bool server, int cert) {
 // ------------------------------------------------------------------------------------------------ streaming writer
 struct W {
     Tape &t; Bytes out; std::vector<size_t> bounds; int budget; std::string notes;
+    int depth = 0, inflate_from = -1, inflate_levels = 0;   // after an inner prefix was made too long, the next 1-2 enclosing prefixes may be inflated as well (so that the inner one is reached)
     W(Tape &tp, int corrupt_budget) : t(tp), budget(corrupt_budget) {}
     void u8(unsigned v) { out.push_back((uint8_t) v); }
     void u16(unsigned v) { u8(v >> 8); u8(v); }
     void u32(uint32_t v) { u16(v >> 16); u16(v & 0xffff); }
     void raw(const Bytes &b) { out.insert(out.end(), b.begin(), b.end()); bounds.push_back(out.size()); }
     void fill(size_t n, uint8_t seed) { for (size_t i = 0; i < n; i++) out.push_back((uint8_t) (seed + i * 7)); bounds.push_back(out.size()); }
-    size_t open(int lb) { size_t p = out.size(); out.insert(out.end(), (size_t) lb, 0); bounds.push_back(out.size()); return p; }
+    size_t open(int lb) { size_t p = out.size(); out.insert(out.end(), (size_t) lb, 0); bounds.push_back(out.size()); depth++; return p; }
     void close(size_t p, int lb) {
         uint64_t L = out.size() - p - lb, max = (1ull << (8 * lb)) - 1, v = L;
-        if (budget > 0 && t.u8() >= 228) {     // deliberately inconsistent length prefix
+        int d = depth--;
+        if (inflate_levels > 0 && d < inflate_from) { inflate_levels--; inflate_from = d; v = t.coin() ? max : L + 1 + t.below(64); notes += fmt(" len@%zu:%llu->%llu(enclosing)", p, (unsigned long long) L, (unsigned long long) (v & max)); }
+        else if (budget > 0 && t.u8() >= 228) {     // deliberately inconsistent length prefix
             budget--;
             switch (t.below(8)) {
             case 0: v = L + 1; break; case 1: v = L ? L - 1 : 1; break; case 2: v = 0; break; case 3: v = max; break;
             case 4: v = L + 1 + t.below(300); break; case 5: v = L / 2; break; case 6: v = t.u16(); break; default: v = L + 2 + t.below(6); break;
             }
+            if (v > L && t.chance(1, 2)) { inflate_from = d; inflate_levels = 1 + (int) t.below(2); }
             notes += fmt(" len@%zu:%llu->%llu", p, (unsigned long long) L, (unsigned long long) (v & max));
         }
         v &= max;
@@ -280,7 +284,8 @@ static bool run(Tape &t, Ctx &c, const Plan &pl, bool selftest) {
         // framing
         if (keys != p13::EP_PLAIN && t.chance(1, 3)) st.pad = t.pick(std::vector<size_t>{ 1, 16, 255, 1000 });
         if (have_held && prev_joinable && t.chance(1, 3)) { held.coalesce = true; ops += " +prev"; }
-        else if (t.chance(1, 3)) { st.max_frag = t.pick(std::vector<size_t>{ 1, 2, 3, 4, 5, 16, 100, 1000, 16384 }); ops += fmt(" frag%zu", st.max_frag); }
+        else if (t.chance(1, 2)) {   // fragmented messages are reassembled in an exact-size heap block: that is where over-reads become visible
+            st.max_frag = t.pick(std::vector<size_t>{ 16, 100, 5, 4, 1000, 1, 2, 3, 64, 16384 }); if (st.max_frag >= body.size() + 4 && body.size() > 8) st.max_frag = 4 + body.size() / 2; ops += fmt(" frag%zu", st.max_frag); }
         bool join_next = tg != T_FIN && tg != T_KU && tg != T_EOED && !post && st.msg == p13::M_RAW_HANDSHAKE && st.max_frag == 0 && t.chance(1, 4);
         { static const char *cls[] = { " len@", " trunc@", " trail+", " flips=", " hdrlen:", " frag", " +prev" }; for (int k = 0; k < 7; k++) if (ops.find(cls[k]) != std::string::npos) opmask |= 1u << k; }
         mutdesc += fmt(" | mutated %s (%zu bytes):%s", tname[tg], body.size(), ops.c_str());
@@ -335,4 +340,7 @@ static void prop(Tape &t, Ctx &c) {
     run(t, c, pl, false);
 }
 VF_TARGET("C08.tls13_keyed", prop, 384, 30)
-namespace vf { void vf_global_init(int, char **) { mxh::global_open(); } }
+namespace vf { void vf_global_init(int, char **) {
+    mxh::global_open();
+    if (const char *e = getenv("C08K_LEAK_EVERY")) vf::leak_check_interval() = (unsigned) atoi(e);   // 1 = blame (and shrink) exactly the leaking case; default 25
+} }
